@@ -1015,7 +1015,7 @@ def r_serde(ctx, view):
     ctx.ob("R-SERDE", "Store::deserialize:requests-a-sequence", names == ["deserialize_seq"], de.loc(), "calls %s" % names)
     vs = prog.fn("<store::serde::StoreVisitor as Visitor>::visit_seq")
     ctx.anchor("StoreVisitor::visit_seq", vs is not None)
-    ne = [t for bb, t in vs.calls() if "func" in t and t["func"]["name"] == "next_element"]
+    ne = [t for g in prog.family(vs.key) for bb, t in g.calls() if "func" in t and t["func"]["name"] == "next_element"]
     okne = False
     tys = []
     if ne:
